@@ -545,6 +545,47 @@ def rule_publast(ctx, rep):
     pat.require(n >= 8, "only %d publications of freshly allocated objects found" % n)
 
 
+def rule_select(ctx, rep):
+    """Helper selection on every call_rcu(): get_call_rcu_data() prefers the caller's private helper, then the per-CPU helper of
+    the CPU it runs on, then the default helper; get_cpu_call_rcu_data(cpu) returns a slot of the per-CPU array only for
+    0 <= cpu < cpus_array_len and a non-NULL (consume-loaded) array.  An index test that is off by one reads past the array."""
+    for fl in ALL:
+        F = FL[fl]
+        m = ctx.mod(F.lib, "perfn")
+        g = m.fn(F.pfx + "_get_cpu_call_rcu_data")
+        pat.require(g is not None, "%s: get_cpu_call_rcu_data vanished" % fl)
+        rep.touch(g)
+        n = 0
+        for p_, atoms, v in paths.ret_cases(g, limit=1024):
+            if v is None or v == ("c", 0):
+                continue
+            n += 1
+            ok_arr = v[0] == "load" and any(a[0] == "ne" and a[2] == ("c", 0) and a[1][0] == "load" and a[1][1] == "@per_cpu_call_rcu_data" for a in atoms)
+            lo = any(a[0] == "sge" and a[1] == ("arg", 0) and a[2] == ("c", 0) or (a[0] == "sgt" and a[1] == ("arg", 0) and a[2] == ("c", -1)) for a in atoms)
+            hi = any((a[0] == "sgt" and a[1][0] == "load" and a[1][1] == "@cpus_array_len" and a[2] == ("arg", 0)) or (a[0] == "slt" and a[1] == ("arg", 0) and a[2][0] == "load" and a[2][1] == "@cpus_array_len") for a in atoms)
+            rep.check(ok_arr and lo and hi, "C03.select", fl + ".get_cpu.bounds", "a per-CPU slot is read only for a non-NULL array and 0 <= cpu < cpus_array_len",
+                      "get_cpu_call_rcu_data returns a slot on %s: %s" % ([ir.atom_str(a) for a in atoms][-4:], "array not tested" if not ok_arr else ("lower bound missing" if not lo else "upper bound is not cpu < cpus_array_len")),
+                      [g.rets()[0].where()])
+            L = g.insts[v[3]] if v[0] == "load" else None
+            rep.check(L is not None and L.d["order"] in ("acquire", "seq_cst", "consume"), "C03.select", fl + ".get_cpu.slot-consume", "the slot is read with rcu_dereference", "the per-CPU slot is read with a plain load", [g.rets()[0].where()])
+        pat.require(n >= 1, "%s: get_cpu_call_rcu_data never returns a slot" % fl)
+        h = m.fn(F.pfx + "_get_call_rcu_data")
+        pat.require(h is not None, "%s: get_call_rcu_data vanished" % fl)
+        rep.touch(h)
+        cpu = pat.calls(h, F.pfx + "_get_cpu_call_rcu_data")
+        dfl = pat.calls(h, F.pfx + "_get_default_call_rcu_data")
+        pat.require(cpu and dfl, "%s: get_call_rcu_data anatomy" % fl)
+        tls_null = any(a[0] == "eq" and a[2] == ("c", 0) and a[1][0] == "load" and a[1][1] == "@thread_call_rcu_data" for a in pat.dom_leaf_atoms(h, cpu[0]))
+        rep.check(tls_null, "C03.select", fl + ".thread-first", "the per-CPU helper is consulted only when the caller has no private helper", "per-CPU helper consulted although the thread has its own helper", [cpu[0].where()])
+        lv = pat.dom_leaf_atoms(h, dfl[0])
+        rep.check(any(a[0] == "eq" and a[2] == ("c", 0) and a[1][0] == "load" and a[1][1] == "@thread_call_rcu_data" for a in lv), "C03.select", fl + ".default-last",
+                  "the default helper is used only without a private helper", "default helper used although the thread has its own", [dfl[0].where()])
+        for p_, atoms, v in paths.ret_cases(h, limit=256):
+            if v is not None and v[0] == "call" and v[1] == F.pfx + "_get_cpu_call_rcu_data":
+                rep.check(any(a[0] == "ne" and a[2] == ("c", 0) and a[1] == v for a in atoms), "C03.select", fl + ".cpu-helper-nonnull", "a per-CPU helper is returned only if non-NULL",
+                          "get_call_rcu_data can return a NULL per-CPU helper", [h.rets()[0].where()])
+
+
 RULES = [
     ("C03.flags", rule_flags),
     ("C03.gp", rule_gp),
@@ -558,6 +599,7 @@ RULES = [
     ("C03.who", rule_who),
     ("C03.default", rule_default),
     ("C03.publast", rule_publast),
+    ("C03.select", rule_select),
     ("C03.wake", rule_wake),
 ]
 FLOORS = {}
